@@ -1410,3 +1410,22 @@ def g1_corner_generation(ctx):
             ctx.undecided("C01-G1", esite, "generation of the face corners not recognised as `empty the container, then one corner per vertex of every face`", "")
         else:
             ctx.ok("C01-G1", esite, "corners regenerated from scratch for every vertex of every face")
+
+
+
+# ----------------------------------------------------------------------- generic families (msa/rules/generic.py)
+_run_specific = run
+
+
+def run(ctx):
+    _run_specific(ctx)
+    from ..rules import generic
+    generic.apply(ctx, "C01", stale_modules=())
+
+
+def _generic_rule_texts():
+    from ..rules import generic
+    return generic.rule_texts("C01", stale=False)
+
+
+RULES.update(_generic_rule_texts())
